@@ -66,6 +66,8 @@ DoRemove(p, g) == LET n == At(tree, p) I == Idx(n, g) IN
 (* steps that change nothing in the tree, but much in an implementation that converts lazily between a raw payload and a list of children:          *)
 (*   Reparse   the root is serialized and parsed again (the objects now point into received bytes instead of having been built)                   *)
 (*   Raw(p)    the raw payload of the element at p is asked for (KSI_TLV_getRawValue collapses an expanded element; a later edit expands it again)  *)
+(*   Detach(p) KSI_TlvElement_detach: the element at p gets a buffer of its own (serialized, re-read, sub-elements re-mapped into the new buffer)  *)
+DoDetach(p) == Step("detach", p, [tag |-> 0], "ok", tree)
 DoReparse == Step("reparse", <<>>, [tag |-> 0], "ok", tree)
 DoRaw(p) == Step("raw", p, [tag |-> 0], "ok", tree)
 
@@ -76,6 +78,7 @@ Next == /\ Len(hist) < MaxOps
               \/ \E e \in Elements : DoAppend(p, e) \/ DoSet(p, e)
               \/ \E g \in {e.tag : e \in Elements} : DoRemove(p, g)
               \/ DoRaw(p)
+              \/ DoDetach(p)
               \/ (p = <<>> /\ tree.sub # <<>> /\ DoReparse)
 Spec == Init /\ [][Next]_<<tree, hist>>
 
